@@ -349,7 +349,9 @@ def check_labels(chk, drv, r, PGD, gaa, gpa, n_cases):
         ploidy, gens, probs = posts[0]
         fpr = [float(p) for p in probs]
         sub = r.sample(pool, r.randint(0, len(pool)))
-        start = r.choice([0, 0, 1])
+        # allele numbers beyond a signed / unsigned byte too (a locus with hundreds of known haplotypes of which the genotype
+        # holds a few): GT must print them as they are and keep '.' last
+        start = r.choice([0, 0, 1, 0, 1, 120, 126, 250, 254, 40000])
         lab = [(h, start + i) for i, h in enumerate(sub)]
         g = list(r.choice(gens))
         r.shuffle(g)
@@ -357,7 +359,7 @@ def check_labels(chk, drv, r, PGD, gaa, gpa, n_cases):
         for h, i in lab:
             toks.extend(str(a) for a in h); toks.append(str(i))
         toks += post_tokens(ploidy, gens, fpr) + [str(a) for h in g for a in h]
-        n_all = r.choice([None, start + len(lab), start + len(lab) + 1, len(lab)])
+        n_all = r.choice([None, start + len(lab), start + len(lab) + 1, len(lab)]) if start < 100 else r.choice([None, len(lab)])
         toks.append("none" if n_all is None else str(n_all))
         reqs.append(" ".join(toks)); meta.append((n_base, lab, ploidy, gens, fpr, g, n_all))
     for (n_base, lab, ploidy, gens, fpr, g, n_all), q, a in zip(meta, reqs, drv.ask(reqs)):
@@ -369,9 +371,15 @@ def check_labels(chk, drv, r, PGD, gaa, gpa, n_cases):
             gp = " ".join(C.rat_str(float(x)) for x in call_gpa(gpa, pnp, labels, n_all))
         except IndexError:
             gp = "error"
-        chk.count("labels:start=%d" % (lab[0][1] if lab else 0)); chk.count("labels:GP-error" if gp == "error" else "labels:GP-ok")
+        chk.count("labels:start=%s" % ((lab[0][1] if lab[0][1] < 100 else ">=120") if lab else 0)); chk.count("labels:GP-error" if gp == "error" else "labels:GP-ok")
         chk.count("labels:n_alleles=None" if n_all is None else "labels:n_alleles=given")
         chk.case(q, len(lab) >= 1)
+        ld = dict(lab)
+        want = sorted(ld[h] for h in g if h in ld) + [-1] * sum(1 for h in g if h not in ld)
+        if gt != " ".join(str(x) for x in want):
+            chk.violation("GT is not the sorted allele numbers of the genotype's listed haplotypes with '.' for the unlisted ones (last)",
+                          {"labels": [(list(h), i) for h, i in lab], "genotype": [list(h) for h in g], "impl": gt, "expected": want},
+                          "C13/_genotype_as_alleles/dot-iff-excluded")
         if f"{gt};{gp}" != a:
             chk.disagreement("_genotype_as_alleles / _genotype_posterior_as_array with an arbitrary label dict != model",
                              {"labels": [(list(h), i) for h, i in lab], "genotype": [list(h) for h in g], "impl": f"{gt};{gp}"[:400], "model": a[:400]})
